@@ -169,4 +169,13 @@ C10BitRef(n, b) ==
                    => fields[i].k = "Renamed" /\ DHas(b.arg, fields[i].name) /\ IsIntLike(DGet(b.arg, fields[i].name))
                       /\ NumOk(DGet(b.arg, fields[i].name))),
            b.res.v.b = PadLeft(NatToBytes(RefPack(fields, b.arg, 1, 0)), total \div 8))
+
+\* C04  a compiled construct behaves like the construct it was compiled from (nothing is claimed where the original rejects).
+\* cs = <<call on the interpreter, the same call on the compiled instance>>
+\* excluded by documentation: look-ahead over truncated data (generated code omits the checks that turn a short read into
+\* the error Peek recovers from)
+TruncatedLookahead(n, i) == AnyNode(n, {"Peek"}) /\ \E k \in 1..Len(i.events) : i.events[k].e = "out" /\ ~i.events[k].ok /\ i.events[k].err = "StreamError"
+C04Equiv(n, i, c) ==
+    Tri(i.res.ok /\ ~TruncatedLookahead(n, i),
+        c.res.ok /\ ValEq(i.res.v, c.res.v) /\ (i.op = "parse" => i.res.p = c.res.p))
 =============================================================================
